@@ -44,7 +44,7 @@ def composition(r):
             ap = r.choice([None, None, True, False, {"type": "string"}]) if r.random() < 0.3 else None
             b = obj_branch(r, mine, ap)
             for s_ in shared:   # shared members get compatible (refining) schemas
-                b["properties"][s_] = r.choice([{"type": "integer"}, {"type": "integer", "minimum": 0}, {}])
+                b["properties"][s_] = r.choice([{"type": "integer"}, {"type": "integer", "minimum": 0}, {}, {"type": "number"}])
             out.append(b)
         return "objects", out
     if k < 0.42:
@@ -108,6 +108,22 @@ def composition(r):
                 b["additionalItems"] = False
             return "tuple+items", [a, b]
         return "tuples", [a, b]
+    if k < 0.88:
+        # the same items schema on both sides, bounds / uniqueness on one or both
+        it = r.choice([{"type": "number"}, {"type": "string"}, {"type": "integer"}])
+        a = {"type": "array", "items": dict(it)}
+        b = {"type": "array", "items": dict(it)}
+        kind = r.randrange(4)
+        if kind == 0:
+            b["minItems"] = b["maxItems"] = 2
+        elif kind == 1:
+            a["minItems"], b["maxItems"] = 3, 2          # contradictory: unsatisfiable
+        elif kind == 2:
+            b["uniqueItems"] = True
+            b["minItems"] = 1
+        else:
+            a["maxItems"], b["minItems"] = 3, 3
+        return "array_bounds", [a, b]
     if k < 0.9:
         return "arrays", [{"type": "array", "items": obj_branch(r, r.sample(PROPS, 2))},
                           {"type": "array", "items": obj_branch(r, r.sample(PROPS, 1))}]
